@@ -311,7 +311,7 @@ pub fn check_params(c: &ParamCase, l: &mut Local) -> Result<(), String> {
                 if constants_ok(w.pools[p].tick_spacing, &merged).is_err() {
                     expect = Some(false);
                 }
-                w.ix_set_adaptive_fee_constants(
+                let mut ix = w.ix_set_adaptive_fee_constants(
                     p,
                     m(0).then_some(k.filter_period),
                     m(1).then_some(k.decay_period),
@@ -320,7 +320,16 @@ pub fn check_params(c: &ParamCase, l: &mut Local) -> Result<(), String> {
                     m(4).then_some(k.max_volatility_accumulator),
                     m(5).then_some(k.tick_group_size),
                     m(6).then_some(k.major_swap_threshold_ticks),
-                )
+                );
+                // mask bit 7: the Oracle account named is that of ANOTHER adaptive pool (possibly of another tick spacing): constants are
+                // per pool, so this must be refused (accounts: whirlpool, whirlpools_config, oracle, fee_authority)
+                if m(7) && ap.len() >= 2 {
+                    let other = ap[(*pool as usize + 1) % ap.len()];
+                    ix.accounts[2].pubkey = w.pools[other].oracle;
+                    expect = Some(false);
+                    l.count("set_adaptive_fee_constants_naming_another_pools_oracle");
+                }
+                ix
             }
             ParamOp::SetFeeRateByDelegate { pool, rate } => {
                 let ap: Vec<usize> = (0..w.pools.len()).filter(|i| w.pools[*i].adaptive).collect();
